@@ -678,18 +678,21 @@ func (c *Ctx) emptySquareIsFresh() {
 // a blob transaction; maxSquareSize 128.
 func (c *Ctx) hugeTxCases() {
 	pool := c.userNamespaces(1)
-	bases := []int{1 << 20}
+	type hc struct{ base, variant int }
+	cases := []hc{{1 << 20, 1}, {1 << 21, 0}}
 	if c.thorough {
-		bases = []int{1 << 20, 1<<21 - 4000, 1 << 21, 1<<21 + 12345}
-	} else if c.rng.Bool() {
-		bases = []int{1 << 21}
+		cases = nil
+		for _, b := range []int{1 << 20, 1<<21 - 4000, 1 << 21, 1<<21 + 12345} {
+			cases = append(cases, hc{b, 0}, hc{b, 1})
+		}
 	}
-	for _, base := range bases {
-		L := base
+	for _, hcase := range cases {
+		L := hcase.base
 		for (L+uvarintLen(L)-474)%478 != 0 {
 			L++
 		}
-		for variant := 0; variant < 2; variant++ {
+		{
+			variant := hcase.variant
 			sc := sqCase{max: 128, thr: 64}
 			sc.txs = append(sc.txs, genTx{raw: c.normalTx(L)})
 			sc.desc = fmt.Sprintf("max=128 thr=64 t%d(exact-fill)", L)
